@@ -28,37 +28,75 @@ deriving Repr, BEq, DecidableEq
 structure St where
   c : Content := []
   gs : List G := []
+  /-- objects whose creating declaration addresses the object itself (`x`, `x: label`), not one of its attributes
+      (`x.shape: …`): only these carry a non-lazy *primary* reference -/
+  prim : List String := []
 
 def names (c : Content) : List String := c.map (·.1)
 
+def hasLabel (c : Content) (n : String) : Bool :=
+  match c.get n with
+  | some a => a.any (·.1 == "Label")
+  | none => false
+
+/-- a lazily applied glob does not replace a primary value (label) the object already has: `ignoreLazyGlob` looks at
+    the object's last primary reference, which is the (non-lazy) declaration that created it — so of several globs
+    that give a later object a label the *first* one wins, while for every other attribute the last one does; an
+    object created through one of its attributes (`x.shape: …`) has no primary reference and takes the last label -/
+def lazySet (prim : List String) (c : Content) (n : String) (g : G) : Content :=
+  if g.key == "Label" && hasLabel c n && prim.contains n then c else applyOp c (.set n g.key g.val)
+
 /-- `compileKey` on a glob: every matching target it has not been applied to yet gets the value and is recorded -/
-def applyG (m : String → String → Bool) (g : G) (c : Content) : G × Content :=
+def applyG (m : String → String → Bool) (lazy : Bool) (prim : List String) (g : G) (c : Content) : G × Content :=
   let targets := (names c).filter fun n => m g.pat n && !g.applied.contains n
-  ({ g with applied := g.applied ++ targets }, targets.foldl (fun c n => applyOp c (.set n g.key g.val)) c)
+  ({ g with applied := g.applied ++ targets },
+   targets.foldl (fun c n => if lazy then lazySet prim c n g else applyOp c (.set n g.key g.val)) c)
 
 /-- the lazy pass: all active globs, in order -/
-def lazyRun (m : String → String → Bool) : List G → Content → List G × Content
+def lazyRun (m : String → String → Bool) (prim : List String) : List G → Content → List G × Content
   | [], c => ([], c)
   | g :: rest, c =>
-    let (g', c') := applyG m g c
-    let (rest', c'') := lazyRun m rest c'
+    let (g', c') := applyG m true prim g c
+    let (rest', c'') := lazyRun m prim rest c'
     (g' :: rest', c'')
+
+/-- a glob declaration that is textually identical to an active one is the *same* glob for the compiler
+    (`RefContext.Equal` compares the keys structurally): its context — applied set included — is re-used -/
+def reuse (m : String → String → Bool) (prim : List String) (p k v : String) : List G → Content → Option (List G × Content)
+  | [], _ => none
+  | g :: rest, c =>
+    if g.pat == p && g.key == k && g.val == v then
+      let (g', c') := applyG m false prim g c
+      some (g' :: rest, c')
+    else match reuse m prim p k v rest c with
+      | some (r, c') => some (g :: r, c')
+      | none => none
 
 def step (m : String → String → Bool) (st : St) : GStmt → St
   | .decl n =>
     if st.c.has n then st
     else
-      let (gs, c) := lazyRun m st.gs (applyOp st.c (.decl n))
-      { c := c, gs := gs }
+      let (gs, c) := lazyRun m (n :: st.prim) st.gs (applyOp st.c (.decl n))
+      { c := c, gs := gs, prim := n :: st.prim }
   | .set n k v =>
     if st.c.has n then { st with c := applyOp st.c (.set n k v) }
     else
-      let (gs, c) := lazyRun m st.gs (applyOp st.c (.decl n))
-      { c := applyOp c (.set n k v), gs := gs }
+      let prim := if k == "Label" then n :: st.prim else st.prim
+      let (gs, c) := lazyRun m prim st.gs (applyOp st.c (.decl n))
+      { c := applyOp c (.set n k v), gs := gs, prim := prim }
   | .glob p k v =>
-    let (g, c) := applyG m { pat := p, key := k, val := v, applied := [] } st.c
-    { c := c, gs := st.gs ++ [g] }
-  | .del n => { st with c := applyOp st.c (.del n) }
+    match reuse m st.prim p k v st.gs st.c with
+    | some (gs, c) => { st with c := c, gs := gs }
+    | none =>
+      let (g, c) := applyG m false st.prim { pat := p, key := k, val := v, applied := [] } st.c
+      { st with c := c, gs := st.gs ++ [g] }
+  | .del n =>
+    -- `n: null` first resolves the key like any declaration (creating the object, which runs the lazy pass and
+    -- records the globs as applied), then removes the field; the applied sets are left alone
+    if st.c.has n then { st with c := applyOp st.c (.del n), prim := st.prim.filter (· != n) }
+    else
+      let (gs, c) := lazyRun m (n :: st.prim) st.gs (applyOp st.c (.decl n))
+      { c := applyOp c (.del n), gs := gs, prim := st.prim.filter (· != n) }
 
 def run (m : String → String → Bool) (p : List GStmt) : St := p.foldl (step m) {}
 
@@ -90,5 +128,17 @@ def noDel : List GStmt → Bool
   | [] => true
   | .del _ :: _ => false
   | _ :: r => noDel r
+
+/-- every glob declaration differs from the active ones and from the earlier ones -/
+def freshGlobs (seen : List (String × String × String)) : List GStmt → Bool
+  | [] => true
+  | .glob p k v :: r => !seen.contains (p, k, v) && freshGlobs (seen ++ [(p, k, v)]) r
+  | _ :: r => freshGlobs seen r
+
+/-- no glob assigns the primary value (label) -/
+def noLabelGlob : List GStmt → Bool
+  | [] => true
+  | .glob _ k _ :: r => k != "Label" && noLabelGlob r
+  | _ :: r => noLabelGlob r
 
 end D2V.GlobSem
